@@ -541,7 +541,7 @@ func InstantiateSchemas(P *Program) []string {
 					if sc.ErrExpr == "" {
 						continue
 					}
-					txt, label = name+" == "+sc.ErrExpr, "explicit-error"
+					txt, label = "isErr("+name+", "+sc.ErrExpr+")", "explicit-error"
 				} else {
 					if !sc.Zero {
 						continue
